@@ -71,6 +71,27 @@ var knownClasses = []*knownClass{
 		Input: "mentions list.Sort, list.SortStable or list.SortStrings",
 		input: func(src []byte) bool { return bytes.Contains(src, []byte("list.Sort")) },
 	},
+	{
+		ID: "F-C02-6",
+		What: "list.Range has no bound on the number of elements it produces (strings.Repeat and list.Repeat do fail fast): " +
+			"`list.Range(0, 10000000000, 1)` or a tiny step runs until the CPU limit / memory cap. Reached by the `bignum` mutation of " +
+			"corpus files that call list.Range; the hand-written big inputs of this class are excluded (B-2)",
+		How:      []string{"timeout", "memcap"},
+		DetailRe: []string{`(?m)^  pkg/list\.Range@list/`},
+		Input:    "mentions list.Range",
+		input:    func(src []byte) bool { return bytes.Contains(src, []byte("list.Range")) },
+	},
+	{
+		ID: "F-C02-7",
+		What: "rendering the text of an evaluation error whose message arguments contain the erroneous value itself " +
+			"(`f: {e: strings.ToUpper(and([_, f]))}`): debug.(*printer).shortError (debug.go:266) -> errors.StringWithConfig -> " +
+			"writeErr -> fmt -> debug formatter.String (debug.go:153) -> printer.node -> compactNode (compact.go:110/176) -> shortError ...: " +
+			"unbounded recursion in err.Error(), fatal stack overflow",
+		How: []string{"fatal", "timeout"},
+		DetailRe: []string{`(?m)^  internal/core/debug\.\(\*printer\)\.shortError@debug/debug\.go`, `(?m)^  internal/core/debug\.\(\*printer\)\.compactNode@debug/compact\.go`,
+			`(?m)^  cue/errors\.writeErr@errors/errors\.go`, `(?m)^  internal/core/debug\.\(?\*?formatter\)?\.String@debug/debug\.go`, `stack overflow|SIGQUIT`},
+		Input: "any (recognised by the recursion cycle on the stack)",
+	},
 }
 
 func init() {
